@@ -21,6 +21,7 @@ TEXT = {
  "C13": ("model-based stateful PBT of Channel against the (taken, committed, replay) model in virtual poll time", "stateful property-based testing vs reference model (rapid + testing/synctest)"),
  "C14": ("model-based stepper over Workers with gated tasks: exactly-once, result identity, concurrency bound, no starvation and Wait/Count semantics decided at exact quiescence", "stateful property-based testing with gated callbacks (rapid + testing/synctest)"),
  "C18": ("stepper in virtual time over ExponentialRetry with scripted outcomes and planned cancellations against the sequential specification of the doc comment", "stateful property-based testing in virtual time (rapid + testing/synctest)"),
+ "C20": ("stepper in virtual time over LinearAttempt with generated receiver paces and cancellation instants (incl. exact tick ties) against the documented channel behaviour", "stateful property-based testing in virtual time (rapid + testing/synctest)"),
  "C19": ("PBT over generated signatures/arguments/result targets against an assignability oracle and direct-call comparison", "property-based testing (rapid), differential vs direct call"),
 }
 NOTE = "exploration only: finds counterexamples on the generated cases, cannot show absence; trusts the Go runtime's synctest quiescence/virtual time, rapid's generators, and the reference model written from the documentation"
